@@ -566,14 +566,15 @@ def chk_estimate(ctx, case):
         label = "ple"
     else:
         site = ALGO_SITE[case["algo"]]
-        res, det, algo, opt, loss, _ = run_lme(qt, empi, case["algo"], case["loss"], flags, case["order"], case["maxit"])
+        extra, _used = build_opts(case, qt, c_sys, rng)
+        res, det, algo, opt, loss, _ = run_lme(qt, empi, case["algo"], case["loss"], flags, case["order"], case["maxit"], extra=extra)
         iterates = list(det.x)
         label = "%s/%s" % (case["algo"], case["loss"])
         if not np.array_equal(np.asarray(det.x[-1]), np.asarray(res.estimated_var)) or len(det.x) != det.k + 1:
             ctx.violation("estimates", site, "result-not-last-iterate", "returned value is not the last stored iterate (k=%s, %d stored)" % (det.k, len(det.x)), case)
         if case.get("nohist"):
             # the branch without iteration history must return the same point (deterministic computation)
-            algo2, opt2, loss2, lopt2, _ = build_lme(qt, case["algo"], case["loss"], flags, case["order"], case["maxit"])
+            algo2, opt2, loss2, lopt2, _ = build_lme(qt, case["algo"], case["loss"], flags, case["order"], case["maxit"], extra=extra)
             with quiet():
                 res2 = Qm.LossMinimizationEstimator().calc_estimate(qt, empi, loss2, lopt2, algo2, opt2)
             ctx.count("estimates", key=(case["id"], "nohist"), nontrivial=True, label="history-off-same-value")
@@ -690,7 +691,7 @@ def gen_estimate_cases(ctx):
                 for data, shots in datas:
                     if quick:
                         # the quick tier samples the grid (every run another sample; the thorough tier runs all of it)
-                        keep = 0.36 if small else (0.07 if heavy else 0.2)
+                        keep = 0.3 if small else (0.06 if heavy else 0.17)
                         if data == "exact" and algo == "bt":
                             keep = 0.9 if small else (0.15 if heavy else 0.5)
                         if rng.random() >= keep:
@@ -709,12 +710,21 @@ def gen_estimate_cases(ctx):
                         maxit = max(maxit, 200)
                     add(kind=kind, sys=sysname, m=mo, para=para, truth=truth, data=data, shots=shots, est="lme", algo=algo, loss=loss,
                         order=rng.choice(["eq_ineq", "ineq_eq"]), flags=fl, maxit=maxit, nohist=rng.random() < 0.3)
+                    if data != "exact" and rng.random() < 0.3:          # other stopping modes / windows (exact-recovery tolerances are calibrated for the default)
+                        cases[-1]["opts"] = dict(mode=rng.choice(STOP_MODES), h=rng.choice([1, 2, 3]))
     return cases
 
 
 def sub_estimates(ctx):
     cases = gen_estimate_cases(ctx)
     ctx.sample("estimates", cases[0]); ctx.sample("estimates", cases[-1])
+    import os, time as _t
+    if os.environ.get("C10_PROFILE"):
+        for c in stamp(ctx, cases):
+            t0 = _t.time(); ctx.run_cases("estimates", chk_estimate, [c]); dt = _t.time() - t0
+            if dt > 2:
+                print("SLOW %.1fs %s" % (dt, {k: v for k, v in c.items() if k not in ("seed",)}), flush=True)
+        return
     ctx.run_cases("estimates", chk_estimate, stamp(ctx, cases))
     ctx.note("estimates: calibration maxima of this run (s = sqrt(eps_proj_physical)): %s" % {k: float("%.3g" % v) for k, v in sorted(CAL.items())})
 
@@ -943,6 +953,21 @@ def chk_reuse(ctx, case):
                           "%s %s/%s para=%s flags=%s data=%s: estimate violates %s (eq residual %.3e, min eigenvalue %.3e, tolerance %.1e)" % (
                               kind, case["algo"], case["loss"], para, flags, case["data"], bad, er, me, tol), jc)
             return
+    # LossMinimizationEstimator.calc_estimate_sequence over DIFFERENT data sets == element-wise estimates of fresh objects (last experiment)
+    truth2 = true_object(rng, kind, sysname, c_sys, para, "boundary", m=case.get("m"))
+    seq = [empi, empi_from(qt, truth2, rng, "fewshot", 3), empi_from(qt, truth2, rng, "far", 5)]
+    opt = AO(on_algo_eq_constraint=True, on_algo_ineq_constraint=True, mode_proj_order=order, max_iteration_optimization=case["maxit"])
+    with quiet():
+        rs = est.calc_estimate_sequence(qt, seq, loss, lopt, algo, opt)
+    for si_, e_ in enumerate(seq):
+        fr = _lme_job(Qm, qt, e_, Qm.LossMinimizationEstimator(), L(qt.num_variables), LO("identity"), A(), AO, [True, True], order, case["maxit"])
+        same = np.array_equal(np.asarray(rs.estimated_var_sequence[si_], dtype=float), np.asarray(fr.estimated_var, dtype=float))
+        ctx.count("reuse", key=(case["id"], "seq", si_), nontrivial=True, label="lme:sequence-call:%s" % ("same-as-elementwise" if same else "differs"))
+        if not same:
+            ctx.violation("reuse", "LossMinimizationEstimator.calc_estimate_sequence", "sequence-differs-from-elementwise",
+                          "%s %s/%s para=%s: element %d of calc_estimate_sequence over 3 data sets is %s, the estimate of that data set alone is %s" % (
+                              kind, case["algo"], case["loss"], para, si_, [float(t) for t in rs.estimated_var_sequence[si_]][:6], [float(t) for t in fr.estimated_var][:6]), dict(case, focus_seq=si_))
+            return
 
 
 def chk_reuse_linear(ctx, case):
@@ -1088,6 +1113,74 @@ def vclose(a, b, tol=1e-11):
     return a.shape == b.shape and float(np.abs(a - b).max()) <= tol * (1 + float(np.abs(b).max()))
 
 
+STOP_MODES = ["single_difference_loss", "sum_absolute_difference_loss", "sum_absolute_difference_variable", "sum_absolute_difference_projected_gradient"]
+
+
+def build_opts(case, qt, c_sys, rng):
+    """non-default algorithm options of a case (explicit arguments that differ from what the object would choose): start point, step parameters,
+    stopping mode and window.  returns (extra kwargs for the option constructor, dict of the values used)"""
+    o = case.get("opts") or {}
+    extra, used = {}, {}
+    n = qt.num_variables
+    if o.get("var_start"):
+        vs = np.asarray(true_object(rng, case["kind"], case["sys"], c_sys, case["para"], "interior", m=case.get("m")).to_var(), dtype=float)
+        extra["var_start"] = vs; used["var_start"] = vs
+    if case["algo"] == "bt":
+        if o.get("mu"):
+            extra["mu"] = o["mu"]
+        if o.get("gamma"):
+            extra["gamma"] = o["gamma"]
+    if case["algo"] == "mom":
+        if o.get("r"):
+            extra["r"] = o["r"]
+        # moment_0 is not generated: the option is unusable on the pinned tree (documented List[float]: `zeta * moment_prev` raises TypeError for a
+        # list, `if algorithm_option.moment_0:` raises ValueError for an array) - an observation outside C10 (no estimate is returned)
+    if case["algo"] == "fista" and o.get("delta"):
+        extra["delta"] = o["delta"]
+    if o.get("mode"):
+        extra["mode_stopping_criterion_gradient_descent"] = o["mode"]
+    if o.get("h"):
+        extra["num_history_stopping_criterion_gradient_descent"] = o["h"]
+    return extra, used
+
+
+def check_stop(ctx, sub, site, case, det, opt, loss, xs, aux_of, maxit):
+    """the stopping rule as the model states it (C10_err_value / C10_continue; tied to the source by the translator): error value per mode, window over the
+    last h values, continue iff the sum is > eps.  Recomputed here from the stored iterates; decisions inside a band around eps are not judged."""
+    mode = opt.mode_stopping_criterion_gradient_descent
+    h = int(opt.num_history_stopping_criterion_gradient_descent)
+    eps = float(opt.eps)
+    evs = []
+    for k in range(1, len(xs)):
+        xp, xn = xs[k - 1], xs[k]
+        if mode == "single_difference_loss":
+            e = float(loss.value(xp)) - float(loss.value(xn))
+        elif mode == "sum_absolute_difference_loss":
+            e = abs(float(loss.value(xp)) - float(loss.value(xn)))
+        elif mode == "sum_absolute_difference_variable":
+            e = float(np.sqrt(np.sum((xp - xn) ** 2)))
+        else:
+            e = float(np.sqrt(np.sum(np.asarray(aux_of(k), dtype=float) ** 2)))
+        evs.append(e)
+    got = [float(t) for t in det.error_values]
+    scale = 1 + max([abs(t) for t in evs] + [abs(float(loss.value(xs[0])))])
+    ctx.count(sub, key=(case["id"], "stop"), nontrivial=True, label="stop-rule:%s:h=%d" % (mode, h))
+    if len(got) != len(evs) or any(abs(a - b) > 1e-10 * scale for a, b in zip(got, evs)):
+        ctx.violation(sub, site, "model-mismatch:error-value", "mode %s: recorded error values %s, model %s" % (mode, got[:5], evs[:5]), case)
+        return
+    for k in range(1, len(xs)):
+        win = sum(evs[max(0, k - h):k])
+        if abs(win - eps) <= 0.05 * eps + 1e-14 * scale:
+            continue
+        cont = win > eps
+        last = k == len(xs) - 1
+        if (cont and last and det.k < maxit) or (not cont and not last):
+            ctx.violation(sub, site, "model-mismatch:stop-decision",
+                          "mode %s window %d eps %.1e: after iteration %d the window sum is %.3e -> the model %s, the run %s" % (
+                              mode, h, eps, k, win, "continues" if cont else "stops", "stopped" if last else "continued"), case)
+            return
+
+
 def chk_steps(ctx, case):
     m = ctx.get_model()
     rng = case_rng(ctx, case)
@@ -1096,7 +1189,8 @@ def chk_steps(ctx, case):
     truth = true_object(rng, kind, sysname, c_sys, para, case["truth"], m=case.get("m"))
     empi = empi_from(qt, truth, rng, case["data"], case["shots"])
     flags = tuple(case["flags"])
-    res, det, algo_obj, opt, loss, rec = run_lme(qt, empi, algo, "wse", flags, case["order"], case["maxit"], record=True)
+    extra, used = build_opts(case, qt, c_sys, rng)
+    res, det, algo_obj, opt, loss, rec = run_lme(qt, empi, algo, "wse", flags, case["order"], case["maxit"], record=True, extra=extra)
     site = ALGO_SITE[algo]
     n = qt.num_variables
     A, c, w = loss_data(qt, empi)
@@ -1113,13 +1207,21 @@ def chk_steps(ctx, case):
         return
     if not np.array_equal(xs[-1], np.asarray(res.estimated_var, dtype=float)):
         bad("result-not-last-iterate", "returned value differs from the last stored iterate")
+    # explicit options are honoured: start point, initial moment
+    if "var_start" in used and not np.array_equal(xs[0], used["var_start"]):
+        bad("option-ignored:var_start", "first stored iterate %s is not the option's var_start %s" % (xs[0][:6], used["var_start"][:6])); return
+    if algo == "mom":
+        m_exp = used.get("moment_0", np.zeros(n))
+        if not np.array_equal(np.asarray(det.moment[0], dtype=float), m_exp):
+            bad("option-ignored:moment_0", "initial moment %s, expected %s" % (np.asarray(det.moment[0])[:6], m_exp[:6])); return
+    check_stop(ctx, "steps", site, case, det, opt, loss, xs, (lambda k: det.y[k - 1]) if algo == "bt" else (lambda k: xs[k]), case["maxit"])
     nontriv = 0
     mag_prev = None
     for k in range(1, k_tot + 1):
         x = xs[k - 1]
         arg_impl, Pz = rec.calls[k - 1]
         if algo == "bt":
-            mu = 3 / (2 * np.sqrt(n)); gamma = opt.gamma
+            mu = extra.get("mu") or 3 / (2 * np.sqrt(n)); gamma = opt.gamma
             v = [float(t) for t in m.call("c10.bt_step", [n, nd, AFUEL], [float(mu), float(gamma)] + fl(x) + fl(Pz) + ldata)]
             arg, y, alpha, halv, xn, fx, gx = v[:n], v[n:2 * n], v[2 * n], int(v[2 * n + 1]), v[2 * n + 2:3 * n + 2], v[3 * n + 2], v[3 * n + 3:]
             if not vclose(gx, loss.gradient(x)) or abs(fx - float(det.fx[k - 1])) > 1e-10 * (1 + abs(fx)):
@@ -1171,7 +1273,7 @@ def chk_steps(ctx, case):
                 nontriv += 1
             mag_prev = mag_prev2
         else:
-            delta = 1 / (10 * np.sqrt(n))
+            delta = extra.get("delta") or 1 / (10 * np.sqrt(n))
             xpp = xs[k - 2] if k >= 2 else xs[0]
             v = [float(t) for t in m.call("c10.fista_step", [n, nd, k], [float(delta)] + fl(xpp) + fl(x) + fl(Pz) + ldata)]
             arg, xn = v[:n], v[n:]
@@ -1211,6 +1313,11 @@ def sub_steps(ctx):
                     cases.append(dict(id="t%d" % n, kind=kind, sys=sysname, m=mo, para=para, algo=algo, data=data, shots=shots,
                                       truth=rng.choice(["boundary", "interior", "generic"]), flags=flags, order=rng.choice(["eq_ineq", "ineq_eq"]),
                                       maxit=(4 if big else 8) if (not wide(ctx)) else (10 if big else 25))); n += 1
+                    # non-default options on about half of the cases: explicit start point, step parameters, stopping mode and window
+                    if rng.random() < 0.5:
+                        cases[-1]["opts"] = dict(var_start=rng.random() < 0.6, mu=rng.choice([None, 0.7, 1.5]), gamma=rng.choice([None, 0.1]),
+                                                 r=rng.choice([None, 1.0, 3.5]), delta=rng.choice([None, 0.05, 0.2]),
+                                                 mode=rng.choice(STOP_MODES), h=rng.choice([1, 2, 3]))
     ctx.sample("steps", cases[0])
     ctx.run_cases("steps", chk_steps, stamp(ctx, cases))
 
@@ -1400,9 +1507,10 @@ def sub_projref(ctx):
     n = 0
     for kind, sysname, mo in (S_LIGHT if ctx.quick else S_THOROUGH):
         for para in (True, False):
-            for rep in range(ctx.n(2, 6)):
-                cases.append(dict(id="j%d" % n, kind=kind, sys=sysname, m=mo, para=para, truth=rng.choice(["boundary", "interior", "generic"]),
-                                  amp=rng.choice([0.3, 1.0, 3.0]))); n += 1
+            # always: a boundary object perturbed slightly (non-physical but close to the set: e.g. purity <= 1 in dimension >= 3) and a far one
+            for truth, amp in [("boundary", 0.1), ("boundary", 0.03), (rng.choice(["interior", "generic"]), rng.choice([0.3, 1.0, 3.0]))] + \
+                    [(rng.choice(["boundary", "interior", "generic"]), rng.choice([0.05, 0.3, 1.0, 3.0])) for _ in range(ctx.n(0, 4))]:
+                cases.append(dict(id="j%d" % n, kind=kind, sys=sysname, m=mo, para=para, truth=truth, amp=amp)); n += 1
     ctx.sample("projref", cases[0])
     ctx.run_cases("projref", chk_projref, stamp(ctx, cases))
     ctx.note("projref: max |quara projection - reference| this run: %s" % {k: float("%.3g" % v) for k, v in sorted(CAL.items()) if k.startswith("projection_vs")})
